@@ -245,6 +245,7 @@ VAL = {
     'k2': lambda i: pick(i, 'b', 'a', 'b'),
     'rev': lambda i: pick(i, 0, 1, 0),
     'ks': lambda i: pick(i, '', 'zz', ''),
+    'bs': lambda i: pick(i, 'Zo\xeb'.encode('utf-8'), b'plain', 'na\xefve \u20ac <b>'.encode('utf-8')),
     'st': lambda i: pick(i, 1, 3, 2),
     'sz': lambda i: pick(i, 2, 3, 2),
     'seq': rows,
@@ -518,6 +519,15 @@ _T = [
      '<dtml-var "x or other">|<dtml-if "z and opt">ZO<dtml-else>nzo</dtml-if>',
      '<dtml-let v="nul or opt"><dtml-var v missing=none null=nil></dtml-let>',
      ['x', 'z', 'nul', 'other', 'opt'], None, 0),
+    # byte strings in the template's (default) encoding, joined with text and html-quoted: a restored or copied
+    # template must decode them exactly as a new one does
+    ('bytes_values', 'HTML',
+     '<dtml-var bs>, welcome &dtml-bs;|<dtml-var bs html_quote>|<dtml-in nums><dtml-var bs>;</dtml-in>',
+     '<dtml-with d mapping>[<dtml-var bs>]</dtml-with><dtml-let z=x>(<dtml-var bs upper>)</dtml-let>'
+     '<dtml-try><dtml-var opt><dtml-except>{<dtml-var bs>}</dtml-try>',
+     ['bs', 'nums', 'd', 'x', 'opt'], None, 0),
+    ('bytes_values_epfs', 'String', '%(bs)s, welcome %(bs html_quote)s|%(in nums)[%(bs)s;%(in nums)]', 'x %(bs)s y',
+     ['bs', 'nums'], None, 0),
     ('skip_unauthorized', 'RefusingHTML',
      '<dtml-tree rootown skip_unauthorized><dtml-var id></dtml-tree>|<dtml-in objs skip_unauthorized><dtml-var c>,</dtml-in>',
      '<dtml-tree rootown skip_unauthorized sort=id reverse><dtml-var id></dtml-tree>|<dtml-in objs skip_unauthorized size=3 start=st><dtml-var c>,</dtml-in>'
